@@ -130,8 +130,9 @@ PROPS = {
                         "address decoding is a parameter of the model (tied in C17); fee-rate comparison modelled in exact integers (DESIGN section 7)"],
     },
     "C06": {
-        "module": ["GoatProofs.C06", "GoatProofs.C08", "GoatProofs.C06H"], "facts": True,
-        "theorems": ["Goat.C06H.fifo_deposits", "Goat.C06H.fifo_paid", "Goat.C06H.fifo_rejected", "Goat.C06H.fifo", "Goat.C06H.handed_prefix", "Goat.C06H.drained_all_handed", "Goat.C06H.nonces_consecutive", "Goat.C06H.nonce_at", "Goat.C06H.nonce_injective", "Goat.C06H.caps", "Goat.C06H.block_cursor", "Goat.C06H.proposal_deterministic", "Goat.C06H.newDeposits_appends", "Goat.C06H.finalizeWithdrawal_appends", "Goat.C06H.approveCancellation_appends", "Goat.C06H.processBridgeRequest_appends", "Goat.C06H.C06_run", "Goat.C06H.locking_fifo_rewards", "Goat.C06H.locking_fifo_unlocks", "Goat.C06H.locking_nonces_consecutive", "Goat.C06H.locking_caps", "Goat.C06H.C06_locking_run", "Goat.C06H.claim_appends", "Goat.C06H.beginBlock_appends",
+        "module": ["GoatProofs.C06", "GoatProofs.C08", "GoatProofs.C06H", "GoatProofs.C06B"], "facts": True,
+        "theorems": ["Goat.C06B.rlpBytes_injective", "Goat.C06B.rlpNat_injective", "Goat.C06B.rlp_prefix_free", "Goat.C06B.rlpList_injective", "Goat.C06B.encodeData_injective", "Goat.C06B.encodeSysTx_injective", "Goat.C06B.map_encodeSysTx_eq_iff", "Goat.C06B.leading_bytes_iff", "Goat.C06B.decode_encode", "Goat.C06B.encode_nonce_ne", "Goat.C06B.encodeSysTx_eq_iff_norm", "Goat.C06B.encodeData_sign_blind",
+                     "Goat.C06H.fifo_deposits", "Goat.C06H.fifo_paid", "Goat.C06H.fifo_rejected", "Goat.C06H.fifo", "Goat.C06H.handed_prefix", "Goat.C06H.drained_all_handed", "Goat.C06H.nonces_consecutive", "Goat.C06H.nonce_at", "Goat.C06H.nonce_injective", "Goat.C06H.caps", "Goat.C06H.block_cursor", "Goat.C06H.proposal_deterministic", "Goat.C06H.newDeposits_appends", "Goat.C06H.finalizeWithdrawal_appends", "Goat.C06H.approveCancellation_appends", "Goat.C06H.processBridgeRequest_appends", "Goat.C06H.C06_run", "Goat.C06H.locking_fifo_rewards", "Goat.C06H.locking_fifo_unlocks", "Goat.C06H.locking_nonces_consecutive", "Goat.C06H.locking_caps", "Goat.C06H.C06_locking_run", "Goat.C06H.claim_appends", "Goat.C06H.beginBlock_appends",
                      "Goat.C06.consecutive_number", "Goat.C06.btc_dequeue_spec", "Goat.C06.blockhashes_gapfree", "Goat.C06.locking_dequeue_spec", "Goat.C08.verifyDequeue_exact"],
         "streams": [{"name": "bitcoin", "quick": 2000, "thorough": 30000, "seeds": 16}, {"name": "locking", "quick": 1500, "thorough": 20000, "seeds": 8},
                     {"name": "app-proposal", "quick": 700, "thorough": 4000, "seeds": 6},
